@@ -82,11 +82,45 @@ def pure_helper(name):
     return any(name.startswith(p) for p in PURE)
 
 
-def compare_rows(table):
+LAZY_BOOL = ("If", "And", "Or")
+
+
+def path_class(kind, path):
+    """which property owns a path of if/and/or: 'bool' (C05: laziness and order), 'other' (C03: a non-boolean,
+    non-None condition operand), 'none' (C04: a None condition operand).  Every other node kind: 'bool'."""
+    if kind not in LAZY_BOOL:
+        return "bool"
+    conds = path[0]
+    for i in (0, 1):
+        subj = evalorder.okv(evalorder.child(kind, i))
+        for s, rel in conds:
+            if s == subj and rel.startswith("is "):
+                t = rel[3:]
+                if t == "None":
+                    return "none"
+                if t != "Bool":
+                    return "other"
+    return "bool"
+
+
+def tags_only(kind, path):
+    """(operand-tag conditions, result) of a path: what C03/C04 say about if/and/or, without the event order"""
+    conds, events, ret = path
+    subjects = [evalorder.okv(evalorder.child(kind, i)) for i in (0, 1)]
+    keep = frozenset(c for c in conds if c[0] in subjects and c[1].startswith("is "))
+    return (keep, (), ret)
+
+
+def strip_op_args(path):
+    conds, events, ret = path
+    return (conds, tuple(("op",) if e[0] == "op" else e for e in events), ret)
+
+
+def compare_rows(table, classes=("bool", "other", "none"), ignore_op_wiring=False, kinds=None, tags_result_only=False):
     """-> (mismatches, stats).  mismatch = {kind, missing:[...], unexpected:[...]}"""
     mismatches = []
     npaths = 0
-    for kind in evalorder.ALL_KINDS:
+    for kind in (kinds or evalorder.ALL_KINDS):
         if kind not in table["rows"]:
             mismatches.append({"kind": kind, "missing": ["<node kind not found in evaluator>"], "unexpected": []})
             continue
@@ -95,6 +129,14 @@ def compare_rows(table):
             for c in canon_path(p, table["opfns"]):
                 actual.add(c)
         exp = set(evalorder.expected(kind))
+        actual = set(x for x in actual if path_class(kind, x) in classes)
+        exp = set(x for x in exp if path_class(kind, x) in classes)
+        if tags_result_only:
+            actual = set(tags_only(kind, x) for x in actual)
+            exp = set(tags_only(kind, x) for x in exp)
+        if ignore_op_wiring:
+            actual = set(strip_op_args(x) for x in actual)
+            exp = set(strip_op_args(x) for x in exp)
         npaths += len(actual)
         if actual != exp:
             mismatches.append({
@@ -102,7 +144,7 @@ def compare_rows(table):
                 "missing": [fmt(x) for x in sorted(exp - actual, key=repr)],
                 "unexpected": [fmt(x) for x in sorted(actual - exp, key=repr)],
             })
-    extra = sorted(set(table["rows"]) - set(evalorder.ALL_KINDS))
+    extra = sorted(set(table["rows"]) - set(evalorder.ALL_KINDS)) if kinds is None else []
     for kind in extra:
         mismatches.append({"kind": kind, "missing": [], "unexpected": ["node kind without a specification row"]})
     return mismatches, {"kinds": len(table["rows"]), "paths": npaths}
